@@ -3,7 +3,8 @@
    Order; this file states the results for every rule matcher. *)
 From Coq Require Import List String Bool Arith.
 From Annet Require Import Base.Str Base.Tree Model.Rulebook Model.Diff Spec.P_C03 Proofs.DiffBasics
-  Proofs.DiffProofsLib Proofs.DiffProofsAnnot Proofs.DiffProofsSelf.
+  Proofs.DiffProofsLib Proofs.DiffProofsAnnot Proofs.DiffProofsSelf Proofs.DiffProofsLossless
+  Proofs.DiffProofsOrder.
 Import ListNotations.
 
 Section C03.
@@ -11,6 +12,16 @@ Section C03.
 
   Theorem diff_self_empty : forall rs x, wf x -> strip_unchanged (make_diff rmatch rs x x) = [].
   Proof. exact (diff_self_empty_lib rmatch). Qed.
+
+  Theorem diff_lossless : forall rs old new, wf old -> wf new ->
+    lossless (annot_f rmatch rs old) (annot_f rmatch rs new) (make_diff rmatch rs old new) = true.
+  Proof. exact (diff_lossless_lib rmatch). Qed.
+
+  Theorem diff_order_ok : forall rs old new, wf old -> wf new ->
+    order_ok (annot_f rmatch rs new) (make_diff rmatch rs old new) = true.
+  Proof. exact (diff_order_ok_lib rmatch). Qed.
 End C03.
 
 Print Assumptions diff_self_empty.
+Print Assumptions diff_lossless.
+Print Assumptions diff_order_ok.
